@@ -101,7 +101,9 @@ PROPS = {
         technique='Verus: `extends` postcondition (table prefix-extended, old definitions untouched) on every registry operation; reflexivity/transitivity lemmas over histories',
         level_text='Clause 1 (every later state extends earlier ones without renumbering or altering existing entries) is the `extends` clause of the trait contract, proved for register_type, intern_type_id and inherited by every into_portable impl; lemma_extends_trans / lemma_id_stable lift it to arbitrary histories.',
         level_note='Clause 2 (byte-identical replay) is not contract-shaped: it follows from determinism of safe single-threaded Rust with no address- or hash-dependent iteration (assumption, not proved). Clause 3 (other root orders give the same registry up to renaming) is NOT proved. register_types / map_into_portable assumed (external).',
-        verus=[('registry', REGISTRY_ITEMS + ['tmpl::lemma_extends_*', 'tmpl::lemma_id_stable', 'tmpl::lemma_prefix_trans']), ('registry_impls', IMPL_ITEMS), ('interner', INTERNER_ITEMS)],
+        verus=[('registry', REGISTRY_ITEMS + ['tmpl::lemma_extends_*', 'tmpl::lemma_id_stable', 'tmpl::lemma_prefix_trans']), ('registry_impls', IMPL_ITEMS), ('interner', INTERNER_ITEMS),
+               # order independence presupposes that a declared identity determines the definition (coherence of the library's own impls)
+               ('alias', ['TypeInfo for *', 'tmpl::identity::*'])],
         kani_quick=[], kani_thorough=[],
         assumptions=['A1', 'A4', 'A5', 'A7', 'PARTIAL', 'MODULAR', 'VSTD', 'TOOLS'],
     ),
